@@ -110,12 +110,17 @@ def plan(ctx):
     special = ['Ma:MKab', 'KMaMb:Mc', 'a:NFn:Gm:SxFx', 'LMa:LLMa', 'b:La:LMb', 'MSxFx:SxMFx',
                # a necessity node re-applied next to several possibility nodes; a nested necessity
                # behind one of two equally ranked possibility nodes
-               'e:La:Mb:Mc:Md', 'e:Ma:MLLKbNb', 'e:LLa:Mb:Mc']
+               'e:La:Mb:Mc:Md', 'e:Ma:MLLKbNb', 'e:LLa:Mb:Mc',
+               # ends with exactly the projected number of worlds
+               'c:LMa:MKLdNd:Me']
     units = []
     for name in names:
         sel = fam.select(pool, 9 if ctx.quick else 80, ctx.seed + 3, name) + special
         if not ctx.quick:
             sel += fam.random_args(ctx.seed, 20)
+            # coverage-directed: proofs that end exactly at the projected world / constant maximum
+            from families import boundary
+            sel += boundary.select(name, ctx.seed, want=3, tries=60)
         sel = list(dict.fromkeys(sel))
         seeds = [ctx.seed, ctx.seed + 1] if ctx.quick else [ctx.seed + i for i in range(6)]
         n = 2 if ctx.quick else 8
@@ -145,7 +150,7 @@ def run(ctx):
     rep.coverage = dict(
         states=paths, transitions=trans, traces_validated_against_impl=0, samples=samples,
         logic_argument_pairs=pairs, pairs_with_limit_outcomes_only=limit_only,
-        bounds=dict(arguments='9 per logic by seed + 9 fixed' if ctx.quick else '80 per logic + 6 fixed + 20 random',
+        bounds=dict(arguments='9 per logic by seed + 10 fixed' if ctx.quick else '80 per logic + 10 fixed + 20 random + boundary family (families/boundary.py)',
                     options='both flags symbolic', call_mode='build | step loop (symbolic pick)',
                     premises='original, reversed, first premise repeated at the end (symbolic pick)',
                     tie_break_seeds=2 if ctx.quick else 6, max_steps=250,
